@@ -371,7 +371,11 @@ def check_ts(ctx):
         l1, s1 = layout(ups[0][0])
         l2, s2 = layout(ups[1][0], A)
         le, se = layout(fmt_text(pk[0].args[0]), A)
-        ok = l1 == [(0, 1), (1, 1), (2, 2), (4, 2), (6, 2)] and l2 == [(0, A), (A, A)] and src(ups[1][2]) == '8' \
+        # the decoder may read at a base offset inside a larger buffer: addresses must then sit at base + 8
+        b0 = src(ups[0][2]) if ups[0][2] is not None else '0'
+        b1 = src(ups[1][2]) if ups[1][2] is not None else '0'
+        rel = b1 == '8' if b0 == '0' else b1 in ('%s + 8' % b0, '8 + %s' % b0)
+        ok = l1 == [(0, 1), (1, 1), (2, 2), (4, 2), (6, 2)] and l2 == [(0, A), (A, A)] and rel \
             and le == [(0, 1), (1, 1), (2, 2), (4, 2), (6, 2), (8, A), (8 + A, A)]
         ctx.check(ok, 'W1', 'Traffic Selector (3.13.1) with %d-octet addresses: type, protocol, length, start port, end port, '
                   'start address, end address at offsets 0,1,2,4,6,8,%d in both directions' % (A, 8 + A), key=('W1', 'ts-layout', A),
@@ -413,9 +417,10 @@ def check_ts(ctx):
     ln = u[1][1][1] if len(u) == 2 else 'length'
     calls = [x for x in calls_in(pf2.node) if callee_name(x) == 'parse' and src(x.func.value) == 'TrafficSelector']
     adv = [n for n in walk_no_nested(pf2.node) if isinstance(n, ast.AugAssign) and src(n.target) == 'offset']
-    ctx.check(len(calls) == 1 and src(calls[0].args[0]) == 'data[offset:offset + %s]' % ln and len(adv) == 1 and src(adv[0].value) == ln
+    ctx.check(len(calls) == 1 and ([src(a) for a in calls[0].args] == ['data[offset:offset + %s]' % ln]
+                                   or [src(a) for a in calls[0].args] == ['data', 'offset']) and len(adv) == 1 and src(adv[0].value) == ln
               and '4' in [src(d) for d in res.local_defs(pf2).get('offset', []) if isinstance(d, ast.AST)], 'W2',
-              'TS payload: selectors start after the 4 fixed octets, each parsed from exactly its announced length',
+              'TS payload: selectors start after the 4 fixed octets, each parsed at the cursor, which advances by the announced length',
               key=('W2', 'ts-loop'), site=ctx.site(pf2, pf2.node))
     loops = [n for n in walk_no_nested(tb2.node) if isinstance(n, ast.For)]
     ctx.check(len(loops) == 1 and src(loops[0].iter) == 'self.traffic_selectors' and [src(s) for s in loops[0].body] == [
